@@ -15,6 +15,7 @@ import (
 	"github.com/cilium/ebpf"
 	"github.com/cilium/ebpf/link"
 	"go.uber.org/zap"
+	"golang.org/x/sys/unix"
 )
 
 // PoolAssignment represents a subscriber's pool assignment (mirrors eBPF struct)
@@ -698,6 +699,24 @@ func Uint64ToMAC(n uint64) net.HardwareAddr {
 		n >>= 8
 	}
 	return mac
+}
+
+// KernelExpiry converts a wall-clock expiry time into the value the XDP program
+// compares against: seconds on the bpf_ktime_get_ns() clock (CLOCK_MONOTONIC,
+// i.e. since boot). A Unix timestamp is always in the future on that clock, so
+// cached assignments written with one never expire in the kernel.
+// If the monotonic clock cannot be read it returns 0, which the program treats
+// as already expired (the request then takes the slow path).
+func KernelExpiry(expiresAt time.Time) uint64 {
+	var ts unix.Timespec
+	if err := unix.ClockGettime(unix.CLOCK_MONOTONIC, &ts); err != nil {
+		return 0
+	}
+	left := time.Until(expiresAt)
+	if left < 0 {
+		left = 0
+	}
+	return uint64(ts.Sec) + uint64(left/time.Second)
 }
 
 // LeaseExpiryFromDuration calculates lease expiry timestamp
